@@ -425,6 +425,64 @@ fn random(a: &Args) {
 
 // ------------------------------------------------------------------ multi-thread histories
 
+/// Stall watchdog.  Every World operation is non-blocking (a few atomic instructions), so a
+/// thread that stays inside ONE library call for `--stall-secs` (default 30 s, far beyond any
+/// scheduling delay) is an operation that neither returns nor panics: the watchdog appends a
+/// self-contained block with a `stall` event to the trace (WorldTrace: no action of World.tla
+/// has such an outcome), prints the summary and ends the process - the stuck thread cannot be
+/// joined.
+#[repr(align(64))]
+struct Slot {
+    cur: std::sync::atomic::AtomicU8,
+    prog: std::sync::atomic::AtomicU64,
+}
+#[allow(clippy::declare_interior_mutable_const)]
+const SLOT0: Slot = Slot { cur: std::sync::atomic::AtomicU8::new(0), prog: std::sync::atomic::AtomicU64::new(0) };
+static SLOTS: [Slot; 32] = [SLOT0; 32];
+static ACTIVE: std::sync::atomic::AtomicBool = std::sync::atomic::AtomicBool::new(false);
+const OPCODES: [&str; 14] = ["", "fetch", "try_fetch", "fetch_mut", "try_fetch_mut", "try_fetch_by_id", "try_fetch_mut_by_id", "sd_optread",
+    "sd_optwrite", "sd_read", "drop", "clone", "meta_iter", "shared operation of a read storm"];
+fn enter(t: usize, op: &str) {
+    let code = OPCODES.iter().position(|x| *x == op).unwrap_or(13) as u8;
+    SLOTS[t % 32].cur.store(code.max(1), Ordering::Relaxed);
+}
+fn leave(t: usize) {
+    let s = &SLOTS[t % 32];
+    s.cur.store(0, Ordering::Relaxed);
+    s.prog.fetch_add(1, Ordering::Relaxed);
+}
+fn watched<R>(t: usize, op: &str, f: impl FnOnce() -> R) -> R {
+    enter(t, op);
+    let r = f();
+    leave(t);
+    r
+}
+fn watchdog(out: String, secs: u64) {
+    let mut last: Vec<(u64, std::time::Instant)> = (0..32).map(|_| (0, std::time::Instant::now())).collect();
+    loop {
+        std::thread::sleep(std::time::Duration::from_millis(250));
+        let active = ACTIVE.load(Ordering::SeqCst);
+        let mut stalled = Vec::new();
+        for (i, s) in SLOTS.iter().enumerate() {
+            let (cur, prog) = (s.cur.load(Ordering::Relaxed), s.prog.load(Ordering::Relaxed));
+            if !active || cur == 0 || prog != last[i].0 {
+                last[i] = (prog, std::time::Instant::now());
+            } else if last[i].1.elapsed().as_secs() >= secs {
+                stalled.push(json!({"t": i, "op": OPCODES[(cur as usize).min(13)]}));
+            }
+        }
+        if !stalled.is_empty() {
+            use std::io::Write as _;
+            if let Ok(mut f) = std::fs::OpenOptions::new().append(true).create(true).open(&out) {
+                let _ = writeln!(f, "{}", json!({"ev":"reset","src":"stall"}));
+                let _ = writeln!(f, "{}", json!({"ev":"stall","secs":secs,"pending":stalled}));
+            }
+            println!("{}", json!({"stalled": true, "secs": secs, "pending": stalled}));
+            std::process::exit(0);
+        }
+    }
+}
+
 struct Log(Mutex<Vec<Value>>);
 impl Log {
     fn push(&self, v: Value) {
@@ -443,6 +501,10 @@ fn threads(a: &Args) {
     let maxthreads: usize = a.num("maxthreads", 8);
     let mut rng = StdRng::seed_from_u64(seed);
     let mut w = BufWriter::new(File::create(out).unwrap());
+    {
+        let (outp, secs) = (out.to_string(), a.num("stall-secs", 30u64));
+        std::thread::spawn(move || watchdog(outp, secs));
+    }
     let (mut tcalls, mut syncs, mut aborted, mut max_pending, mut overlapped) = (0usize, 0usize, 0usize, 0usize, 0usize);
     let mut rayon_rounds = 0usize;
     let mut outcomes = std::collections::BTreeMap::<String, usize>::new();
@@ -483,6 +545,7 @@ fn threads(a: &Args) {
             let cis: Vec<usize> = (1..=nt as u32).map(|ty| dref.ci(ty)).collect();
             // every other block runs its "threads" as tasks on the workers of a rayon pool
             let on_rayon = cfg!(feature = "parallel") && b % 2 == 1;
+            ACTIVE.store(true, Ordering::SeqCst);
             let back: Vec<Vec<(u32, SendEntry)>> = if on_rayon {
                 run_on_rayon(k, held, &log, &gid, &seeds, &start, nops, world, &rids, &cis)
             } else {
@@ -502,6 +565,7 @@ fn threads(a: &Args) {
                     hs.into_iter().map(|h| h.join().expect("harness thread")).collect()
                 })
             };
+            ACTIVE.store(false, Ordering::SeqCst);
             if on_rayon {
                 rayon_rounds += 1;
             }
@@ -549,6 +613,7 @@ fn threads(a: &Args) {
             }
         }
         write_block(&mut w, &evs);
+        w.flush().unwrap();
     }
     // storm blocks: violators produce thousands of caught borrow violations on one resource
     // while bystanders do only legal fetches of DISJOINT resources
@@ -559,6 +624,7 @@ fn threads(a: &Args) {
     for b in 0..storms {
         let (evs, st) = storm_block(&mut rng, blocks + b, viol, keep);
         write_block(&mut w, &evs);
+        w.flush().unwrap();
         storm_stats.push(st);
     }
     // read storms: several threads hammer ONLY shared operations on the same resources
@@ -568,6 +634,7 @@ fn threads(a: &Args) {
     for b in 0..rstorms {
         let (evs, st) = read_storm_block(&mut rng, blocks + storms + b, rstorm_ms, maxthreads);
         write_block(&mut w, &evs);
+        w.flush().unwrap();
         rstorm_stats.push(st);
     }
     w.flush().unwrap();
@@ -647,7 +714,7 @@ fn thread_body(
             // release one of this thread's guards
             let (g, e) = mine.swap_remove(rng.gen_range(0..mine.len()));
             log.push(json!({"ev":"tcall","t":t,"op":"drop","targ":e.0.ty,"ty":e.0.ty,"dy":e.0.dy,"g":g}));
-            let r = std::panic::catch_unwind(std::panic::AssertUnwindSafe(move || drop(e)));
+            let r = watched(t as usize, "drop", || std::panic::catch_unwind(std::panic::AssertUnwindSafe(move || drop(e))));
             let (k, why) = match r {
                 Ok(()) => ("unit", ""),
                 Err(e) => ("panic", panic_why(&*e)),
@@ -662,7 +729,7 @@ fn thread_body(
             let (g, e) = mine.iter().find(|(_, e)| e.0.g.cloneable()).unwrap();
             let (g, ty, dy) = (*g, e.0.ty, e.0.dy);
             log.push(json!({"ev":"tcall","t":t,"op":"clone","targ":ty,"ty":ty,"dy":dy,"g":g}));
-            let r = std::panic::catch_unwind(std::panic::AssertUnwindSafe(|| e.0.g.dup()));
+            let r = watched(t as usize, "clone", || std::panic::catch_unwind(std::panic::AssertUnwindSafe(|| e.0.g.dup())));
             match r {
                 Ok(Some(ng)) => {
                     let n = gid.fetch_add(1, Ordering::SeqCst);
@@ -687,7 +754,7 @@ fn thread_body(
             };
             log.push(json!({"ev":"tcall","t":t,"op":op,"targ":ty,"ty":ty,"dy":dy,"g":0,"via":real,"rayon_worker":shredh::worldx::on_rayon_worker()}));
             let id = rids[ty as usize - 1][dy as usize].clone();
-            let r = std::panic::catch_unwind(std::panic::AssertUnwindSafe(|| thread_fetch(world, real, cis[ty as usize - 1], id)));
+            let r = watched(t as usize, real, || std::panic::catch_unwind(std::panic::AssertUnwindSafe(|| thread_fetch(world, real, cis[ty as usize - 1], id))));
             match r {
                 Ok(Some(mut g)) => {
                     // canary protocol: an exclusive holder makes the counter odd while it "writes"
@@ -761,7 +828,7 @@ impl StormThread<'_> {
         self.cycle.push(SEv { seq: s0, call: true, op, ty, dy, g: 0, k: "", why: "", cl: false });
         let id = self.rids[ty as usize - 1][dy as usize].clone();
         let (world, ci) = (self.world, self.cis[ty as usize - 1]);
-        let r = std::panic::catch_unwind(std::panic::AssertUnwindSafe(|| shredh::worldx::thread_fetch(world, real, ci, id)));
+        let r = watched(self.t as usize, real, || std::panic::catch_unwind(std::panic::AssertUnwindSafe(|| shredh::worldx::thread_fetch(world, real, ci, id))));
         self.ops += 1;
         let s1 = self.seq();
         match r {
@@ -785,7 +852,7 @@ impl StormThread<'_> {
     fn release(&mut self, gid: u32, g: Box<dyn shredh::worldx::AnyGuard>, ty: u32, dy: u32) {
         let s0 = self.seq();
         self.cycle.push(SEv { seq: s0, call: true, op: "drop", ty, dy, g: gid, k: "", why: "", cl: false });
-        let r = std::panic::catch_unwind(std::panic::AssertUnwindSafe(move || drop(g)));
+        let r = watched(self.t as usize, "drop", || std::panic::catch_unwind(std::panic::AssertUnwindSafe(move || drop(g))));
         let s1 = self.seq();
         let (k, why) = match r {
             Ok(()) => ("unit", ""),
@@ -844,7 +911,8 @@ fn storm_block(rng: &mut StdRng, b: usize, viol: usize, keep: usize) -> (Vec<Val
             start.wait();
             let attempts: &[&'static str] = if excl_holder { &["fetch", "try_fetch", "fetch_mut", "try_fetch_mut"] } else { &["fetch_mut", "try_fetch_mut"] };
             for i in 0..viol {
-                if ctl.anomalies.load(Ordering::Relaxed) >= 8 {
+                // bounded in time as well: a refused fetch normally takes well under a microsecond
+                if ctl.anomalies.load(Ordering::Relaxed) >= 8 || (i % 64 == 0 && t0.elapsed().as_millis() > 1500) {
                     break;
                 }
                 let op = attempts[rng.gen_range(0..attempts.len())];
@@ -911,6 +979,7 @@ fn storm_block(rng: &mut StdRng, b: usize, viol: usize, keep: usize) -> (Vec<Val
         }
         (me.kept, me.ops)
     };
+    ACTIVE.store(true, Ordering::SeqCst);
     let results: Vec<(Vec<SEv>, usize)> = if on_rayon {
         storm_on_rayon(k, &body)
     } else {
@@ -919,6 +988,7 @@ fn storm_block(rng: &mut StdRng, b: usize, viol: usize, keep: usize) -> (Vec<Val
             hs.into_iter().map(|h| h.join().expect("storm thread")).collect()
         })
     };
+    ACTIVE.store(false, Ordering::SeqCst);
     let wall = t0.elapsed().as_secs_f64();
     let mut all: Vec<(u32, SEv)> = Vec::new();
     let mut ops = 0usize;
@@ -1009,6 +1079,7 @@ fn read_storm_block(rng: &mut StdRng, b: usize, ms: u64, maxthreads: usize) -> (
                 let (ci, id) = if on_a { (ci_a, rid_a[t].clone()) } else { (ci_b, rid_b[t].clone()) };
                 let kind = rng.gen_range(0..7usize);
                 ops[kind] += 1;
+                enter(t, "shared operation of a read storm");
                 let r: Result<Option<Box<dyn shredh::worldx::AnyGuard>>, ()> = match kind {
                     0 => std::panic::catch_unwind(std::panic::AssertUnwindSafe(|| shredh::worldx::thread_fetch(world, "fetch", ci, id))).map_err(|_| ()),
                     1 => std::panic::catch_unwind(std::panic::AssertUnwindSafe(|| shredh::worldx::thread_fetch(world, "try_fetch", ci, id))).map_err(|_| ()),
@@ -1019,6 +1090,7 @@ fn read_storm_block(rng: &mut StdRng, b: usize, ms: u64, maxthreads: usize) -> (
                         Some(g) => std::panic::catch_unwind(std::panic::AssertUnwindSafe(|| g.dup())).map_err(|_| ()),
                         None => {
                             ops[kind] -= 1;
+                            leave(t);
                             continue;
                         }
                     },
@@ -1029,6 +1101,7 @@ fn read_storm_block(rng: &mut StdRng, b: usize, ms: u64, maxthreads: usize) -> (
                             Ok(2) => {}
                             _ => fail[kind] += 1,
                         }
+                        leave(t);
                         continue;
                     }
                 };
@@ -1053,6 +1126,7 @@ fn read_storm_block(rng: &mut StdRng, b: usize, ms: u64, maxthreads: usize) -> (
                         fail[7] += 1;
                     }
                 }
+                leave(t);
             }
         }
         while let Some(g) = held.pop_front() {
@@ -1069,6 +1143,7 @@ fn read_storm_block(rng: &mut StdRng, b: usize, ms: u64, maxthreads: usize) -> (
         std::thread::sleep(std::time::Duration::from_millis(ms));
         stop.store(true, Ordering::SeqCst);
     };
+    ACTIVE.store(true, Ordering::SeqCst);
     let results: Vec<(Vec<u64>, Vec<u64>)> = if on_rayon {
         read_storm_on_rayon(k, &body, &timer)
     } else {
@@ -1078,6 +1153,7 @@ fn read_storm_block(rng: &mut StdRng, b: usize, ms: u64, maxthreads: usize) -> (
             hs.into_iter().map(|h| h.join().expect("read storm thread")).collect()
         })
     };
+    ACTIVE.store(false, Ordering::SeqCst);
     let wall = t0.elapsed().as_secs_f64();
     let (mut ops, mut fail) = (vec![0u64; READ_KINDS.len()], vec![0u64; READ_KINDS.len()]);
     for (o, f) in &results {
